@@ -21,7 +21,8 @@ theorem pointer_roundtrip (offset length : Nat) (isNull : Bool) (ho : offset < 2
 -- `gen_new_outcome`, `C08Construct.gen_construct_canon` + `gen_new_semantics_partial`. `QFrame.Slice`, `Select`, `Drop`, `Copy`: `Gen.guardAst` + `Gen.projectAst`,
 -- `C08Guards.gen_guards_canon` + `gen_guards_semantics`, `C08ProjectGen.gen_project_canon` + `gen_project_semantics`.
 -- The string pointer functions are regenerated in `Gen.stringsFns` (C08PointerGen.gen_pointer_semantics / gen_pointer_roundtrip).
-theorem tie : Tie.sameAll ["qframe.createColumn", "scolumn.New", "scolumn.NewConst", "icolumn.NewConst"] = true := by decide
+-- The constructors createColumn calls are regenerated in `Gen.scolNew` / `scolNewConst` / `numCtors` (C08CtorsGen).
+theorem tie : Tie.sameAll ["qframe.createColumn"] = true := by decide
 
 /-- The null marker of packed string pointers is bit 63. -/
 theorem gen_null_bit : Gen.consts.lookup "strings.nullBit" = some "0x8000000000000000" := by decide
